@@ -551,7 +551,8 @@ fn make_extended_auth<'a>(
         socks5_client::ExtendedAuthenticationValue::ClientAddress(*client_address),
     ];
 
-    if let Some(user_agent) = user_agent {
+    // An empty `User-Agent` is the same as none: the extension value cannot be empty
+    if let Some(user_agent) = user_agent.filter(|x| !x.is_empty()) {
         values.push(socks5_client::ExtendedAuthenticationValue::UserAgent(
             Cow::Borrowed(user_agent),
         ));
